@@ -3,7 +3,6 @@ package main
 import (
 	"fmt"
 	"go/types"
-	"os"
 	"strconv"
 	"strings"
 	"sync"
@@ -24,14 +23,11 @@ import (
 // rules_gramx.go applied to the token string, plus the rune offsets the rendering itself assigns.
 // ---------------------------------------------------------------------------------------------
 
-// gxLeadingBlanks: whether the margin family starts texts with blank, tab, CR and LF. Off: the committed
-// tree cuts exactly these four characters off both ends of the text before scanning it, so every position
-// it quotes for such a text is relative to the cut text (‹ 1 2› reports the 2 at column 3, ‹\n1 2› on line 1).
-// That is reported to the maintainer of the findings list as a departure of the committed tree from the
-// last clause of C12; the members stay out of the family until it is judged. Every other leading white
-// space (the control characters below the blank, comments) and every trailing one is in the family.
-// (GX_LEADING_BLANKS=1 in the environment puts them in, to reproduce the report.)
-var gxLeadingBlanks = os.Getenv("GX_LEADING_BLANKS") == "1"
+// gxLeadingBlanks: the margin family starts texts with blank, tab, CR and LF as well. The pinned tree cut
+// exactly these four characters off both ends of the text before scanning it, so every position it quoted
+// for such a text was relative to the cut text (‹ 1 2› reported the 2 at column 3, ‹\n1 2› on line 1): a
+// departure from the last clause of C12, found by this family and repaired in /repo (known_findings.json).
+const gxLeadingBlanks = true
 
 type gxRendering struct {
 	text string
